@@ -220,6 +220,8 @@ pub fn check_case(case: &Case) -> Vec<(String, String)> {
         if no_marketing_in_rule {
             let marketing: Vec<&str> = if case.marketing_set == 1 { vec!["utm_source=z", "ref=r", "hsCta=t"] } else { vec!["utm_source=z", "utm_medium=m%20x"] };
             let mut subsets = vec![vec![marketing[0]], vec![marketing[1], marketing[0]]];
+            // a forwarded value that reads like a reference to a variable of the rule (it is data: forwarded as written)
+            subsets.push(vec!["utm_source=@vhost"]);
             if marketing.len() > 2 {
                 // a configured marketing parameter whose name has an upper-case letter
                 subsets.push(vec![marketing[2]]);
@@ -237,9 +239,16 @@ pub fn check_case(case: &Case) -> Vec<(String, String)> {
                     if matched.is_empty() {
                         fail("marketing-ignored", format!("rule from {u:?} does not match {um:?} although marketing parameters are ignored"));
                     } else {
-                        for target in ["/t", "/t?x=1"] {
+                        for target in ["/t", "/t?x=1", "/t/@vhost", "/t/@vhost?x=@vhost"] {
                             let mut r2 = Router::<Rule>::from_config(rc.clone());
-                            r2.insert(rule_for(&case.path, &case.params, target));
+                            let mut rule_v = serde_json::to_value(rule_for(&case.path, &case.params, target)).unwrap();
+                            if target.contains('@') {
+                                // the source stays a literal URL; the target uses a variable computed from the request
+                                rule_v["variables"] = json!([{"name": "vhost", "type": "request_host", "transformers": []}]);
+                            }
+                            r2.insert(serde_json::from_value::<Rule>(rule_v).expect("rule with variable"));
+                            let target = target.replace("@vhost", "h.example");
+                            let target = target.as_str();
                             let m2 = r2.match_request(&req);
                             let mut action = Action::from_routes_rule(m2, &req, None);
                             let headers = action.filter_headers(vec![], 0, false, None);
@@ -394,6 +403,29 @@ pub fn run(tier: Tier) -> i32 {
             let mut upper = params.clone();
             upper[n / 2] = "Q=Z".to_string();
             cases.push(Case { flags, marketing_set: 0, path: "/A".to_string(), params: upper, unused_marker: false });
+        }
+    }
+    // a repeated key with two different values among 33 / 40 / 64 parameters (both sides keep the LAST value): every pair of
+    // positions of the two occurrences (quick: every pair with a step of 3 on the second), on an ascending and on a scattered
+    // base order of the other keys
+    for n in [33usize, 40, 64] {
+        for scattered in [false, true] {
+            let stride = if n % 7 == 0 { 11 } else { 7 };
+            let base: Vec<String> = (0..n - 2).map(|i| if scattered { (i * stride) % (n - 2) } else { i }).map(|i| format!("p{i:03}=v{i}")).collect();
+            for i in 0..n - 1 {
+                for j in ((i + 1)..n).step_by(tier.pick(3, 1)) {
+                    let mut params = base.clone();
+                    params.insert(i, "p020=first".to_string());
+                    params.insert(j, "p020=last".to_string());
+                    // p020 is now present three times when the base holds it too: drop the base's own
+                    if let Some(k) = params.iter().position(|p| p == "p020=v20") {
+                        params.remove(k);
+                    }
+                    for flags in [0u32, 4] {
+                        cases.push(Case { flags, marketing_set: 0, path: "/a".to_string(), params: params.clone(), unused_marker: false });
+                    }
+                }
+            }
         }
     }
     let distinct_norm = DistinctSet::new();
